@@ -36,7 +36,7 @@ txt = {
  "V_subj": "I know you're there, pick up the phone: and talk!",
  "V_big1": "16777217", "V_big2": "4294967296", "V_big3": "0000000568", "V_big4": "99999999999", "V_big5": "4000000000",
  "VC_e10": "<sip:a@b>;expires=10", "VC_e60_5": "<sip:c@d>;expires=60, \"x\" <sip:e@f>;expires=5;q=0.1", "VC_e7200": "sip:g@h;expires=7200",
- "VC_e3": "<sip:i@j>;EXPIRES=3 ;foo", "V_expires3": "100",
+ "VC_e3": "<sip:i@j>;EXPIRES=3 ;foo", "VC_e3600z": "<sip:k@l>;expires=000000000000000000003600", "V_expires3": "100",
  # first lines
  "FL_inv": "INVITE sip:bob@b.example SIP/2.0", "FL_reg": "REGISTER sip:r.example SIP/2.0", "FL_opt": "OPTIONS sip:x SIP/2.0",
  "FL_foo": "FOO sip:x@y SIP/2.0", "FL_ack": "ACK sip:bob@b.example;transport=tcp SIP/2.0",
